@@ -15,7 +15,7 @@ import numpy as np
 
 from symx import term as tm, solver
 from symx.sym import explore, Inconclusive
-from symx.symint import SInt, sym_int
+from symx.symint import SInt, sym_int, sym_set, sym_sorted
 from symx.harness import FuncTrace, source_digest
 from .ch.fakefs import FakeFS, FakeH5, FakeOS, FakeNP
 
@@ -160,6 +160,67 @@ def sc_overwrite(n, m, k):
     return (f'overwrite n={n} m={m} k={k}', names, pre, body)
 
 
+def sc_overwrite_none(n, hole):
+    names = [f'i{j}' for j in range(n)]
+
+    def pre(v):
+        return distinct(v)
+
+    def body(api, v):
+        its = list(v)
+        R = api.reading
+        d1 = {'it': list(its), 'v': [api.tag('v', 1, i) for i in its]}
+        col = [api.tag('v', 2, i) for i in its]
+        col[hole] = None
+        d2 = {'it': list(its), 'v': col}
+        R.save_data({'datapath': api.root + '/d/'}, d1, vars=['v'], it=list(its))
+        R.save_data({'datapath': api.root + '/d/'}, d2, vars=['v'], it=list(its))
+        out = R.read_data({'datapath': api.root + '/d/'}, it=list(its), vars=['v'])
+        ss = sorted(its)
+        probs = []
+        for j in range(len(ss)):
+            want = api.tag('v', 1, ss[j]) if ss[j] == its[hole] else api.tag('v', 2, ss[j])
+            if not api.same(out['v'][j], want):
+                probs.append('a skipped None entry changed what is stored for that iteration (most recent array lost)')
+        return probs
+    return (f'overwrite-with-None n={n} hole={hole}', names, pre, body)
+
+
+def sc_readall_ragged(n):
+    names = [f'i{j}' for j in range(n)]
+
+    def pre(v):
+        return distinct(v)
+
+    def body(api, v):
+        its = list(v)
+        R = api.reading
+        d1 = {'it': list(its), 'v': [api.tag('v', 1, i) for i in its]}
+        d2 = {'it': list(its[1:]), 'w': [api.tag('w', 1, i) for i in its[1:]]}
+        R.save_data({'datapath': api.root + '/d/'}, d1, vars=['v'], it=list(its))
+        if len(its) > 1:
+            R.save_data({'datapath': api.root + '/d/'}, d2, vars=['w'], it=list(its[1:]))
+        out = R.read_data({'datapath': api.root + '/d/'}, it=list(its))        # all variables
+        ss = sorted(its)
+        probs = []
+        for key in out:
+            if key != 'it' and len(out[key]) != len(ss):
+                probs.append(f'column {key} does not have one entry per requested iteration')
+        if len(its) > 1:
+            if 'w' not in out:
+                probs.append('variable present only in later iterations is missing when reading all variables')
+            elif len(out['w']) == len(ss):
+                for j in range(len(ss)):
+                    want = None if ss[j] == its[0] else api.tag('w', 1, ss[j])
+                    if not api.same(out['w'][j], want):
+                        probs.append('entries of a ragged variable are filed under the wrong iteration when reading all variables')
+        for j in range(min(len(ss), len(out.get('v', [])))):
+            if not api.same(out['v'][j], api.tag('v', 1, ss[j])):
+                probs.append('reading all variables returns the wrong array')
+        return probs
+    return (f'read-all-ragged n={n}', names, pre, body)
+
+
 def sc_all_vars(n):
     names = [f'i{j}' for j in range(n)]
 
@@ -225,6 +286,8 @@ def scenarios(tier):
             out.append(sc_ragged(n, hole))
         out.append(sc_overwrite(n, 1, 1))
         out.append(sc_all_vars(n))
+        out.append(sc_readall_ragged(n))
+        out.append(sc_overwrite_none(n, n - 1))
         out.append(sc_args(n, min(n, 2), with_it=bool(n % 2)))
     if tier == 'thorough':
         out += [sc_unsaved(3, 2, 3), sc_overwrite(3, 2, 2), sc_roundtrip(3, 3, True, 1), sc_roundtrip(3, 3, False, 0),
@@ -247,6 +310,7 @@ def run_scenario(args):
         fs = FakeFS()
         saved = (reading.h5py, reading.os, reading.np, getattr(reading, 'int', None))
         reading.h5py, reading.os, reading.np, reading.int = FakeH5(fs), FakeOS(fs), FakeNP(), sym_int
+        reading.set, reading.sorted = sym_set, sym_sorted
         api = Api(reading, concrete=False)
         api.root = ''
         try:
@@ -258,6 +322,7 @@ def run_scenario(args):
                 probs = [f'raises {type(e).__name__}: {e}'[:160]]
         finally:
             reading.h5py, reading.os, reading.np = saved[:3]
+            del reading.set, reading.sorted
             if saved[3] is None:
                 del reading.int
             else:
